@@ -23,7 +23,11 @@ NAMESPACE = "C09"
 
 POLY = ["Triangle", "Trapezoid", "Rectangle", "Ramp", "SShape", "ZShape", "PiShape", "Binary", "Concave"]
 TRANS = ["Gaussian", "Bell", "Sigmoid", "Cosine", "Spike", "GaussianProduct", "SigmoidDifference", "SigmoidProduct"]
-TIE_A = ["Norm."] + [f"Term.{c}.membership" for c in POLY + TRANS]
+TIE_A = (["Norm."] + [f"Term.{c}.membership" for c in POLY + TRANS]
+         + ["code:fuzzylite.operation.Op.midpoints", "code:fuzzylite.term.Activated.membership",
+            "code:fuzzylite.term.Aggregated.membership"]
+         + [f"code:fuzzylite.defuzzifier.{c}.defuzzify" for c in
+            ("Centroid", "Bisector", "SmallestOfMaximum", "MeanOfMaximum", "LargestOfMaximum")])
 RULE = ("5 integral defuzzifiers x resolution {1,2,3,5,10,100, random <= 100, in the thorough tier also random <= 1000} x aggregated sets of 0-5 "
         "activated shape terms x ranges (unit, symmetric, translated, tiny, large) x scalar and batch degrees (incl. 0, 1, "
         "NaN/inf degrees). Family 'dyadic': sample points, parameters, heights and degrees on dyadic grids (float arithmetic "
@@ -606,6 +610,21 @@ def correspond(ctx):
                 continue
             todo.append((case, x))
     outs = ctx.driver.eval([line(c, x) for c, x in todo])
+    # resolution 0 is outside the domain of the model (`Op.Integral.midpoints lo hi 0 = []`): C09.code_midpoints and the
+    # five defuzzifier ties say the code raises ZeroDivisionError there (external `Py.Np.divInt`: Python float / int 0)
+    for what, f in [("Op.midpoints", lambda: fl.Op.midpoints(0.0, 2.0, 0))] + [
+            (n, (lambda n=n: setattr(d0 := getattr(fl, n)(5), "resolution", 0) or d0.defuzzify(fl.Constant("c", 1.0), 0.0, 2.0)))
+            for n in DEFUZZ]:
+        try:
+            got = repr(f())[:60]
+        except ZeroDivisionError:
+            got = None
+        except Exception as ex:  # noqa: BLE001
+            got = f"{type(ex).__name__}"
+        st.count("resolution0")
+        if got is not None:
+            mism.append({"case": {"r": 0, "lo": 0.0, "hi": 2.0, "what": what}, "impl": got, "model": "ZeroDivisionError",
+                         "what": f"{what} with resolution 0: expected ZeroDivisionError (code_midpoints), got {got}"})
     # Op.midpoints against the exact midpoints of the model
     mp = [(c, x) for c, x in todo[:: max(1, len(todo) // 150)]]
     mouts = ctx.driver.eval([C.sx(["midpoints", float(c["lo"]), float(c["hi"]), int(c["r"])]) for c, _ in mp])
